@@ -27,7 +27,8 @@ LEVEL = "exploration"
 EXHAUSTIVE = True
 RULE = ("ordered pairs (a, b) of trees over one namespace and leaf set: all of U(n) x U(n) per rooting state up to the "
         "tier bound, x edge-length patterns (unit, pre-order index, non-dyadic, every {1,2} assignment, every single "
-        "missing length / all missing), x re-drawings of b (reversed / all child orders, every seed position of the "
+        "missing length / all missing, every {0,1} assignment, an exact 0 / 0.0 on every single edge, polytomies "
+        "resolved by zero-length edges in every way), x re-drawings of b (reversed / all child orders, every seed position of the "
         "unrooted tree, unifurcation chains), x namespace configurations, x the five public functions and their "
         "aliases; all triples of U(4) (thorough: binary U(5)) for the triangle inequality; all histories "
         "[encode | distance, one edit with every target, distance]; pairs over two namespaces.  A case = one pair of "
@@ -83,12 +84,18 @@ def bounds(tier):
                 "x12_full_product_max_leaves": 3, "x12_vs_fixed_leaves": 4,
                 "redraw_all_partners_max_leaves": 4, "redraw_few_partners_leaves": 5,
                 "triples": "U(4)^3", "history_max_leaves": 4, "history_all_partners_max_leaves": 3,
-                "missing_length_max_leaves": 4, "ns_configs": build.NS_CONFIGS, "foreign_ns_max_leaves": 4}
+                "missing_length_max_leaves": 4, "ns_configs": build.NS_CONFIGS, "foreign_ns_max_leaves": 4,
+                "x01_full_product_max_leaves": 3, "x01_vs_fixed_leaves": 4, "x01_float_zero_max_leaves": 3,
+                "zero_on_one_edge_max_leaves": 4, "zero_on_one_edge_binary_leaves": None,
+                "zero_resolved_polytomies_max_leaves": 5, "zero_resolved_all_partners_max_leaves": 4}
     return {"pairs_all_functions_max_leaves": 5, "pairs_unweighted_binary_leaves": 6,
             "x12_full_product_max_leaves": 4, "x12_vs_fixed_leaves": None,
             "redraw_all_partners_max_leaves": 5, "redraw_few_partners_leaves": None,
             "triples": "U(4)^3 and binary U(5)^3", "history_max_leaves": 5, "history_all_partners_max_leaves": 4,
-            "missing_length_max_leaves": 5, "ns_configs": build.NS_CONFIGS, "foreign_ns_max_leaves": 5}
+            "missing_length_max_leaves": 5, "ns_configs": build.NS_CONFIGS, "foreign_ns_max_leaves": 5,
+            "x01_full_product_max_leaves": 4, "x01_vs_fixed_leaves": None, "x01_float_zero_max_leaves": 3,
+            "zero_on_one_edge_max_leaves": 4, "zero_on_one_edge_binary_leaves": 5,
+            "zero_resolved_polytomies_max_leaves": 5, "zero_resolved_all_partners_max_leaves": 5}
 
 
 def tup(x):
@@ -124,8 +131,13 @@ def _rootunit(i, leaf, depth):
     return 1
 
 
-PATTERNS = {"unit": _unit, "idx": _idx, "idxrev": _idx_rev, "nd": _nd, "alt": _alt, "none": None, "rootunit": _rootunit}
-DYADIC = {"unit", "idx", "idxrev", "alt", "x12", "rootunit"}
+def _alt01(i, leaf, depth):
+    return None if depth == 0 else (0, 1)[i % 2]
+
+
+PATTERNS = {"unit": _unit, "idx": _idx, "idxrev": _idx_rev, "nd": _nd, "alt": _alt, "none": None, "rootunit": _rootunit,
+            "alt01": _alt01}
+DYADIC = {"unit", "idx", "idxrev", "alt", "x12", "rootunit", "alt01"}
 
 
 def snap(shape, pattern):
@@ -136,11 +148,12 @@ def count_shape_nodes(s):
     return sum(1 for _ in U.paths(s))
 
 
-def x12_snaps(shape, roots=(None,)):
-    """every assignment of {1,2} to every non-seed edge x every seed-edge length in `roots`"""
+def x12_snaps(shape, roots=(None,), alphabet=(1, 2)):
+    """every assignment of `alphabet` ({1,2}; {0,1} for the exact-zero layer) to every
+    non-seed edge x every seed-edge length in `roots`"""
     m = count_shape_nodes(shape)
     out = []
-    for combo in itertools.product((1, 2), repeat=m - 1):
+    for combo in itertools.product(tuple(alphabet), repeat=m - 1):
         for r in roots:
             out.append(ref.mk(shape, lens=[r] + list(combo)))
     return out
@@ -663,6 +676,41 @@ def chunks(tier):
         for rooted in (True, False):
             for i in range(len(U.shapes(n))):
                 add(kind="x12", n=n, rooted=rooted, i=i, partner="fixed")
+    # (2b) exact zeros: {0,1}-exhaustive, zero on exactly one edge, zero-length-resolved polytomies
+    for n in range(2, b["x01_full_product_max_leaves"] + 1):
+        ns = len(U.shapes(n))
+        alphas = [[0, 1]] + ([[0.0, 1.0]] if n <= b["x01_float_zero_max_leaves"] else [])
+        for rooted in (True, False):
+            for alpha in alphas:
+                for i in range(ns):
+                    if n <= 3:
+                        add(kind="x12", n=n, rooted=rooted, i=i, partner="x12", alpha=alpha)
+                    else:
+                        for j in range(ns):
+                            add(kind="x12", n=n, rooted=rooted, i=i, j=j, partner="x12", alpha=alpha)
+    if b["x01_vs_fixed_leaves"]:
+        n = b["x01_vs_fixed_leaves"]
+        for rooted in (True, False):
+            for i in range(len(U.shapes(n))):
+                add(kind="x12", n=n, rooted=rooted, i=i, partner="fixed", alpha=[0, 1])
+    for n in range(2, b["zero_on_one_edge_max_leaves"] + 1):
+        ns = len(U.shapes(n))
+        step = ns if n <= 3 else 4
+        for rooted in (True, False):
+            for lo in range(0, ns, step):
+                add(kind="zero1", n=n, rooted=rooted, lo=lo, hi=min(ns, lo + step))
+    if b["zero_on_one_edge_binary_leaves"]:
+        n = b["zero_on_one_edge_binary_leaves"]
+        ns = len(U.shapes(n, binary_only=True))
+        for rooted in (True, False):
+            for lo in range(0, ns, 3):
+                add(kind="zero1", n=n, rooted=rooted, lo=lo, hi=min(ns, lo + 3), binary=True)
+    for n in range(3, b["zero_resolved_polytomies_max_leaves"] + 1):
+        for rooted in (True, False):
+            for i, sh in enumerate(U.shapes(n)):
+                if not U.is_binary(sh):
+                    add(kind="zres", n=n, rooted=rooted, i=i,
+                        partners="all" if n <= b["zero_resolved_all_partners_max_leaves"] else "few")
     # (3) re-drawings
     for n in range(2, b["redraw_all_partners_max_leaves"] + 1):
         ns = len(U.shapes(n))
@@ -797,23 +845,130 @@ def fixed_partners(n):
 def run_x12(chunk, ctx):
     n, rooted, i = chunk["n"], chunk["rooted"], chunk["i"]
     shapes = U.shapes(n)
-    A = x12_snaps(shapes[i], roots=(1, 2) if rooted else (None,))
+    alpha = tuple(chunk.get("alpha", (1, 2)))      # (1, 2), (0, 1) or (0.0, 1.0)
+    zero = alpha[0] == 0
+    cname = "x01_pairs" if zero else "x12_pairs"
+    A = x12_snaps(shapes[i], roots=alpha if rooted else (None,), alphabet=alpha)
     if chunk["partner"] == "x12":
         js = [chunk["j"]] if "j" in chunk else range(len(shapes))
         for j in js:
-            B = x12_snaps(shapes[j], roots=((1, 2) if n <= 3 else (1,)) if rooted else (None,))
+            B = x12_snaps(shapes[j], roots=(alpha if n <= 3 else (1,)) if rooted else (None,), alphabet=alpha)
             for a in A:
                 for b in B:
                     eval_pair(ctx, rooted, a, b, WEIGHTED)
-                    ctx.count("x12_pairs")
+                    ctx.count(cname)
     else:
         for j in range(len(shapes)):
-            b = snap(shapes[j], "alt")
-            for a in A:
-                eval_pair(ctx, rooted, a, b, WEIGHTED)
-                eval_pair(ctx, rooted, b, a, WEIGHTED)
-                ctx.count("x12_pairs", 2)
-    ctx.sample({"layer": "x12", "rooting": rootname(rooted), "first_of": len(A), "a": ref.to_newick(A[len(A) // 3])}, 1)
+            for pat in (("unit", "alt01") if zero else ("alt",)):
+                b = snap(shapes[j], pat)
+                for a in A:
+                    eval_pair(ctx, rooted, a, b, WEIGHTED)
+                    eval_pair(ctx, rooted, b, a, WEIGHTED)
+                    ctx.count(cname, 2)
+    ctx.sample({"layer": "x01" if zero else "x12", "rooting": rootname(rooted), "first_of": len(A),
+                "a": ref.to_newick(A[len(A) // 3])}, 1)
+
+
+# ---------------------------------------------------------------------------
+# exact zeros
+
+def run_zero1(chunk, ctx):
+    """zero on exactly one edge: b = unit lengths with one single edge (every non-seed edge;
+    the seed edge too for rooted trees) set to 0 resp. 0.0; every ordered pair with the
+    unit-length trees of the class, both argument orders."""
+    n, rooted = chunk["n"], chunk["rooted"]
+    shapes = U.shapes(n, binary_only=bool(chunk.get("binary")))
+    units = [snap(s, "unit") for s in shapes]
+    for bi in range(chunk["lo"], chunk["hi"]):
+        base = units[bi]
+        for p in sn_paths(base):
+            if not p and not rooted:
+                continue
+            for z in (0, 0.0):
+                b = set_len(base, p, z)
+                ctx.count("zero_on_one_edge_trees")
+                for a in units:
+                    eval_pair(ctx, rooted, a, b, WEIGHTED)
+                    eval_pair(ctx, rooted, b, a, WEIGHTED)
+                    ctx.count("zero_on_one_edge_pairs", 2)
+    ctx.sample({"layer": "zero-on-one-edge", "rooting": rootname(rooted),
+                "b": ref.to_newick(set_len(units[chunk["lo"]], list(sn_paths(units[chunk["lo"]]))[-1], 0.0))}, 1)
+
+
+@functools.lru_cache(maxsize=None)
+def shape_clades(shape):
+    return frozenset(ref.rooted_clades(ref.mk(shape)))
+
+
+def refinements(shape, n):
+    """all shapes of U(n) that strictly refine `shape` (every clade kept, at least one added)"""
+    cs = shape_clades(shape)
+    return [r for r in U.shapes(n) if r != shape and cs < shape_clades(r)]
+
+
+def zero_resolved(shape, rshape, pattern, z):
+    """drawing of the refinement `rshape` of `shape`: edges of `shape` keep the length they have
+    under `pattern`, every added edge has length z (0 or 0.0)"""
+    src = snap(shape, pattern)
+    length = {}
+    for cl, nd in ref.clade_list(src):
+        length[cl] = nd[2]
+
+    def rec(nd):
+        kids = tuple(rec(c) for c in nd[3])
+        cl = ref.clade(nd)
+        return (nd[0], nd[1], length[cl] if cl in length else z, kids)
+    return rec(ref.mk(rshape))
+
+
+def run_zres(chunk, ctx):
+    """polytomies resolved by zero-length edges, in every way: weighted distance to the
+    polytomous tree is 0, to every other tree the same as the polytomous tree's; partners
+    include trees conflicting with the zero-length splits (so these are splits of one
+    tree only) and other zero-resolutions of the same polytomy."""
+    n, rooted, si, tier = chunk["n"], chunk["rooted"], chunk["i"], chunk["tier"]
+    isr = bool(rooted)
+    shapes = U.shapes(n)
+    s = shapes[si]
+    poly = snap(s, "idx")
+    refs = refinements(s, n)
+    if chunk["partners"] == "all":
+        partners = [snap(x, "idxrev") for x in shapes]
+    else:
+        partners = [snap(x, "idxrev") for x in fixed_partners(n)]
+    partners.append(poly)
+    few = [snap(x, "idxrev") for x in fixed_partners(n)] + [poly]
+    zs = (0, 0.0) if n <= 4 else (0,)
+    if n <= 4:
+        sib_idx = list(range(len(refs)))
+    else:
+        sib_idx = sorted(set([0, len(refs) // 2, len(refs) - 1]))
+    for z in zs:
+        sibs = [zero_resolved(s, refs[k], "idx", z) for k in sib_idx]
+        for r in refs:
+            b = zero_resolved(s, r, "idx", z)
+            # harness self-check: same per-split lengths as the polytomous tree, new splits 0
+            Rb, Rp = R(b, isr), R(poly, isr)
+            if any(Rb[1].get(k, 0) != Rp[1].get(k, 0) for k in Rb[0] | Rp[0]):
+                raise AssertionError("harness: not a zero-length resolution: %s of %s" % (ref.to_newick(b), ref.to_newick(poly)))
+            ctx.count("zero_resolved_trees")
+            ds = [b, rev(b)]
+            if n <= 4 and not rooted:
+                ds.extend(redraw_unrooted(b))
+            seen = set()
+            for d in ds:
+                if d in seen:
+                    continue
+                seen.add(d)
+                ctx.count("zero_resolved_drawings")
+                fns = CORE if (d is b and n <= 4) else WEIGHTED
+                for a in (partners if (d is b or n <= 4) else few) + sibs:
+                    eval_pair(ctx, rooted, a, d, fns)
+                    eval_pair(ctx, rooted, d, a, fns)
+                    ctx.count("zero_resolved_pairs", 2)
+    if refs:
+        ctx.sample({"layer": "zero-resolved-polytomies", "rooting": rootname(rooted), "polytomous": ref.to_newick(poly),
+                    "resolutions": len(refs), "example": ref.to_newick(zero_resolved(s, refs[-1], "idx", 0))}, 1)
 
 
 def drawings_of(sn_b, shape, n, rooted, tier):
